@@ -412,6 +412,8 @@ def check_oracle(dirname, oracles):
                     os.path.join(cli_args.test_directory, str(pid)))
                 proc_res.stats['error'] = compiler.crash_msg
                 output[pid] = proc_res.stats
+            else:
+                output[pid] = proc_res.stats
         return output, compilation_time
 
     output = {}
